@@ -11,6 +11,7 @@ import (
 	"time"
 
 	wt "github.com/hnakamur/whispertool"
+	"github.com/hnakamur/whispertool/cmd"
 )
 
 // fetchAll renders what a handle shows of every archive over its whole retention.
@@ -91,7 +92,19 @@ func init() {
 		acked, live := false, ""
 		var opts []wt.Option
 		if tk[0] == "rosync" {
-			opts = append(opts, wt.WithOpenFileFlag(os.O_RDONLY))
+			// read-only access mode, alone or with a further flag bit (token 5: nofollow, cloexec, sync)
+			flag := os.O_RDONLY
+			if len(tk) > 5 {
+				switch tk[5] {
+				case "nofollow":
+					flag |= syscall.O_NOFOLLOW
+				case "cloexec":
+					flag |= syscall.O_CLOEXEC
+				case "sync":
+					flag |= os.O_SYNC
+				}
+			}
+			opts = append(opts, wt.WithOpenFileFlag(flag))
 		}
 		db, err := wt.Open(f.path, opts...)
 		if err == nil {
@@ -266,5 +279,81 @@ func init() {
 			f.digest, f.size = fileDigest(f.path)
 		}
 		s.obs("createshared ok")
+	})
+}
+
+func init() {
+	// recreatewait NAME : a Create over the existing file NAME (open flag without O_EXCL, default lock)
+	// arrives while another handle holds the file: until that handle is closed the file is as it was
+	register("recreatewait", func(s *sess, tk []string) {
+		f := s.file(tk[1])
+		if f.db != nil {
+			f.db.Close()
+			f.db = nil
+		}
+		a, err := wt.Open(f.path)
+		if err != nil {
+			s.obs("recreatewait openerr")
+			return
+		}
+		before, _ := os.ReadFile(f.path)
+		done := make(chan error, 1)
+		go func() {
+			b, err := wt.Create(f.path, a.ArchiveInfoList(), a.AggregationMethod(), a.XFilesFactor(), wt.WithOpenFileFlag(os.O_RDWR|os.O_CREATE))
+			if err == nil {
+				err = b.Sync()
+				b.Close()
+			}
+			done <- err
+		}()
+		time.Sleep(200 * time.Millisecond)
+		during, _ := os.ReadFile(f.path)
+		intact := string(before) == string(during)
+		a.Close()
+		select {
+		case <-done:
+		case <-time.After(5 * time.Second):
+		}
+		s.obs("recreatewait intact=%v", intact)
+	})
+	// cliwsitem : an item directory whose name contains a blank, summed through the directory and
+	// through the server: item globbing gives the same item names both ways
+	handlers["cliwsitem"] = func(s *sess, tk []string) {
+		s.echo(strings.Join(tk, " "))
+		l := wt.ArchiveInfoList{wt.NewArchiveInfo(1, 10)}
+		for _, name := range []string{"ws/x y/a.wsp", "ws/z\tw/a.wsp"} {
+			p := filepath.Join(s.dir, strings.ReplaceAll(name, "\\t", "\t"))
+			must(os.MkdirAll(filepath.Dir(p), 0755))
+			db, err := wt.Create(p, l, wt.Sum, 0.5)
+			must(err)
+			must(db.Sync())
+			db.Close()
+		}
+		run := func(base, prefix string) string {
+			c := &cmd.SumCommand{SrcBase: base, ItemPattern: filepath.Join(prefix, "ws", "*"), SrcPattern: "*.wsp", ArchiveID: -1, TextOut: "", ShowHeader: true}
+			err, panicked := runCmd(c.Execute)
+			return statusOf(err, panicked)
+		}
+		s.obs("cliwsitem local=%s remote=%s", run(s.root, filepath.Base(s.dir)), run(s.serverURL(), filepath.Base(s.dir)))
+	}
+}
+
+func init() {
+	// setmaxret NAME v : the max-retention word of the header (file bytes 4..7) is overwritten with v,
+	// as a foreign tool that resized the file and left the metadata stale would leave it; the word is
+	// independent of the archive list and is what Header.MaxRetention reports
+	register("setmaxret", func(s *sess, tk []string) {
+		f := s.file(tk[1])
+		if f.db != nil {
+			f.db.Close()
+			f.db = nil
+		}
+		fh, err := os.OpenFile(f.path, os.O_RDWR, 0)
+		must(err)
+		v := uint32(atoi(tk[2]))
+		_, err = fh.WriteAt([]byte{byte(v >> 24), byte(v >> 16), byte(v >> 8), byte(v)}, 4)
+		must(err)
+		must(fh.Close())
+		s.obs("setmaxret ok")
 	})
 }
